@@ -32,24 +32,38 @@ WellPosed(L, cm, tr, um) ==
     \/ cm = "wait"  /\ tr = L  /\ um = "close"
     \/ cm = "half"  /\ tr \in 0..L /\ um \in {"half", "wait"}
     \/ cm = "wait"  /\ tr \in 0..L /\ um = "half"
+\* one direction FAILS while the other finished cleanly and is still being delivered to a slow reader:
+\* the client sends, half-closes, sees the upstream's first message and goes away (reset); only then
+\* the upstream sends its second message (which cannot be delivered any more) and only after that it
+\* starts to read.  The client finished first: everything it sent is due at the upstream.
+ErrPosed(L, cm, tr, um, us) == cm = "abort" /\ tr = -2 /\ um = "wait" /\ L >= 1 /\ Len(us) = 2
 
-MCScenarios ==
-    { [kind |-> k, proxy |-> p, cseg |-> cs, hl |-> (IF k = "sni" THEN Len(HelloBytes) ELSE 0),
-       useg |-> us, cmode |-> cm, trig |-> tr, umode |-> um] :
-         k \in Kinds, p \in {0, 1}, cs \in UNION { Segs(s) : s \in CStreams("sni") \cup CStreams("tcp") },
-         us \in UNION { Segs(s) : s \in UStreams },
-         cm \in {"half", "close", "wait"}, tr \in -1..(MaxC + Len(HelloBytes)), um \in {"half", "close", "wait"} }
+Sc(k, p, cs, us, cm, tr, um, sl) ==
+    [kind |-> k, proxy |-> p, cseg |-> cs, hl |-> (IF k = "sni" THEN Len(HelloBytes) ELSE 0),
+     useg |-> us, cmode |-> cm, trig |-> tr, umode |-> um, uslow |-> sl]
+Proxies(k) == IF k = "ws" THEN {0} ELSE {0, 1}
+CSegsOf(k) == UNION { Segs(s) : s \in CStreams(k) }
+USegsAll == UNION { Segs(s) : s \in UStreams }
 
-Valid(s) == /\ Flatten(s.cseg) \in CStreams(s.kind)
-            /\ (s.kind = "ws" => s.proxy = 0)
-            /\ WellPosed(Len(Flatten(s.cseg)), s.cmode, s.trig, s.umode)
-MCValid == { s \in MCScenarios : Valid(s) }
+\* every well-posed clean close order
+Combos(L) == { c \in {"half", "close", "wait"} \X (-1..L) \X {"half", "close", "wait"} : WellPosed(L, c[1], c[2], c[3]) }
+MCClean == UNION { UNION { { Sc(k, p, cs, us, c[1], c[2], c[3], 0) : p \in Proxies(k), us \in USegsAll, c \in Combos(Len(Flatten(cs))) }
+                         : cs \in CSegsOf(k) }
+                 : k \in Kinds }
+\* the failing-direction family
+MCErr == UNION { { Sc(k, p, cs, us, "abort", -2, "wait", 1) :
+                     p \in Proxies(k), cs \in CSegsOf(k), us \in { u \in USegsAll : Len(u) = 2 } }
+               : k \in Kinds }
+
+Valid(s) == \/ s.uslow = 0 /\ WellPosed(Len(Flatten(s.cseg)), s.cmode, s.trig, s.umode)
+            \/ s.uslow = 1 /\ ErrPosed(Len(Flatten(s.cseg)) - s.hl, s.cmode, s.trig, s.umode, s.useg)
+MCValid == MCClean \cup { s \in MCErr : Valid(s) }
 
 ScJson(s) == [kind |-> s.kind, proxy |-> s.proxy, cseg |-> s.cseg, hl |-> s.hl, useg |-> s.useg,
-              cmode |-> s.cmode, trig |-> s.trig, umode |-> s.umode]
+              cmode |-> s.cmode, trig |-> s.trig, umode |-> s.umode, uslow |-> s.uslow]
 
 \* generator: evaluated once per distinct state; prints at the terminal ones
 GenOut == Terminated => PrintT(ToJson([sc |-> ScJson(sc), usegs |-> USegs, ufree |-> UFree,
                                        crecv |-> cRecv, urecv |-> uRecv,
-                                       creads |-> (sc.cmode # "close")]))
+                                       creads |-> (sc.cmode \notin {"close", "abort"})]))
 =============================================================================
